@@ -260,7 +260,7 @@ def g3(e: Engine, rep: Report, rule: str):
                 and ast.unparse(n.value) == 'self.lines':
             lo = ast.unparse(n.slice.lower) if n.slice.lower else None
             up = ast.unparse(n.slice.upper) if n.slice.upper else None
-            if lo is None and up == 'self.EOD':
+            if lo in (None, '0') and up == 'self.EOD':
                 before_s = n
             if up is None and lo in ('self.EOD + 1', '1 + self.EOD'):
                 after_s = n
